@@ -455,8 +455,10 @@ def r8(ctx, facts):
                 on_opt = [c for c in calls if c.args and c.args[0][0] in ("c", "m") and b.local_ty(c.args[0][1][0]).replace("&", "").startswith("core::option::Option<") and "NodeLocationPreference" in b.local_ty(c.args[0][1][0])]
                 if not on_opt:
                     continue
-                n += 1
                 meths = sorted({(c.decl or c.name or "").split("::")[-1] for c in on_opt})
+                if all(m in ("as_ref", "copied", "cloned", "clone", "as_deref") for m in meths):
+                    continue          # the option is only handed on (to the constructor that resolves it): not the resolving site
+                n += 1
                 ok = all(m in ("unwrap_or", "unwrap_or_else", "as_ref", "copied", "cloned", "clone", "as_deref") for m in meths) and any(m.startswith("unwrap_or") for m in meths)
                 r.instance("policy-preference-wins:" + fn_short(b.path), ok,
                            "the policy's Option<preference> is combined with the request's through %s: only `unwrap_or(inherited)` keeps an explicit `prefer no datacenter`; filter / and_then / or make the policy "
